@@ -65,6 +65,40 @@ def layout_case(draw, tier: str):
             nm = f"{a.name}_{draw(st.integers(0, a.type.n - 1))}"
             if all(f.name != nm for f in st_.fields):
                 st_.fields.append(M.Field(nm, max(f.fid for f in st_.fields) + 1, M.U(draw(st.integers(1, 8)))))
+    # field names of nested structs that are equal to / end with / start with the name of the field that contains
+    # them (hierarchical names are built by joining: "a_0::data_0::x" contains "a_0" twice)
+    def related(base: str) -> List[str]:
+        return [base, "x" + base, base + "x", "dat" + base, base + base]
+
+    for st_ in s.structs:
+        for f in st_.fields:
+            leaf = M.type_leaf(f.type)
+            if not isinstance(leaf, M.StructRef) or draw(st.integers(0, 2)) != 0:
+                continue
+            inner = s.struct(leaf.name)
+            cands = [g for g in inner.fields if isinstance(g.type, (M.Arr, M.StructRef))] or list(inner.fields)
+            g = draw(st.sampled_from(cands))
+            nm = draw(st.sampled_from(related(f.name)))
+            if all(h.name != nm for h in inner.fields):
+                g.name = nm
+    if draw(st.integers(0, 7)) == 0:
+        # directed: an array of structs whose elements contain an array of structs (two unrolled levels), with the
+        # inner field named after the outer one
+        taken = {d.name for d in s.decls}
+        nm = [n for n in ("CellQ", "RowQ", "GridQ") if n not in taken]
+        if len(nm) == 3:
+            outer = draw(S.lower_ident)
+            inner = draw(st.sampled_from(related(outer) + [draw(S.lower_ident)]))
+            cell = M.Struct(nm[0], [M.Field("x", 1, M.U(draw(st.integers(1, 9)))), M.Field("y", 0, M.I(draw(st.integers(1, 9))))])
+            row_fields = [M.Field(inner, draw(st.integers(0, 5)), M.Arr(M.StructRef(nm[0]), draw(st.integers(1, 3))))]
+            if draw(st.booleans()):
+                row_fields.append(M.Field("k", 7, M.U(draw(st.integers(1, 8)))))
+            grid_fields = [M.Field(outer, draw(st.integers(0, 5)), M.Arr(M.StructRef(nm[1]), draw(st.integers(2, 3))))]
+            if draw(st.booleans()) and outer != "tail":
+                grid_fields.append(M.Field("tail", 9, M.U(draw(st.integers(1, 8)))))
+            s.decls += [cell, M.Struct(nm[1], row_fields), M.Struct(nm[2], grid_fields)]
+            structs = [x.name for x in s.structs]
+            structs += [nm[2]] * 3  # bias the bindings towards it
     n_impl = draw(st.integers(1, 4))
     used = set()
     for _ in range(n_impl):
@@ -243,6 +277,9 @@ def run_history(s: M.Schema, fcp: Any, unroll0: bool, ops: List[Tuple[str, Any]]
             classes.append("block_on_nested_or_other")
         if m.signals:
             classes.append("has_signal_block")
+        parts = [lf.name.split("::") for lf in ref]
+        if any(len(ps) >= 2 and any(a != b and (a.rstrip("0123456789_") in b) for a, b in zip(ps, ps[1:])) for ps in parts):
+            classes.append("nested_name_contains_outer_name")
         rec.cls(*classes)
         if len(ref) >= 3 and set(classes) & {"enum_width_non_pow2", "ids_out_of_order", "nested_array", "history_ge2"}:
             rec.nt([text, real.name, real.protocol, unroll, [list(o) for o in ops[:step]]])
